@@ -6,11 +6,4 @@ CONSTANTS
 SPECIFICATION Spec
 CHECK_DEADLOCK FALSE
 VIEW view
-INVARIANT TypeOK
-PROPERTY AfterClose
-INVARIANT NoRaise
-INVARIANT ClosedIsFinal
-INVARIANT Progress
-INVARIANT ConnectWellFormed
-INVARIANT NoReplyUnlessAsked
-INVARIANT OutOnlyWhenConnected
+INVARIANT NeverV6
